@@ -93,3 +93,40 @@ def rule_loopstore(ctx, R):
         if ints and fps:
             R.check(max(e[0] for e in ints) < min(e[0] for e in fps), '%s: integer stores before floating-point stores' % name, src,
                     expected='every store of step 9 before every store of step 11', found='last integer store is instruction %d, first floating-point store is instruction %d of the fragment' % (max(e[0] for e in ints), min(e[0] for e in fps)))
+
+
+def rule_loopload(ctx, R):
+    R.rule('X86-LOOPLOAD', 'the load half of the x86-64 loop (specification 4.6.2 steps 2-3): r(8+j) ^= the j-th quadword at spAddr0 for j = 0..7, f0-f3 / e0-e3 are converted from the eight 8-byte groups at spAddr1 '
+           '(xmm j from offset 8j), only the four e registers pass through the and / or masks, and the two addresses are scratchpad base + the two halves of spMix', min_instances=5)
+    o = ctx.obj('x86')
+    R.saw(unit='src/jit_compiler_x86_static.S', config='K0')
+    order = sorted((a, n) for n, a in o.symbols.items() if n.startswith('randomx_program_') or n.startswith('_randomx_program_'))
+    a = o.sym('randomx_program_loop_load')
+    nxt = [x for x, n in order if x > a]
+    ins = o.between(a, nxt[0])
+    src = 'src/asm/program_loop_load.inc'
+    ev, slots = _walk(ins)
+    xl = [e for e in ev if e[1] == 'load' and e[4] == 'xor']
+    cl = [e for e in ev if e[1] == 'load' and e[4].startswith('cvtdq2pd')]
+    R.check(sorted((e[3], e[5]) for e in xl) == [(8 * j, 'r%d' % (8 + j)) for j in range(8)] and len({e[2] for e in xl}) == 1, 'integer registers', src,
+            expected='r(8+j) ^= [spAddr0 + 8j], j = 0..7, one base', found=sorted((e[3], e[5]) for e in xl))
+    R.check(sorted((e[3], e[5]) for e in cl) == [(8 * j, 'xmm%d' % j) for j in range(8)] and len({e[2] for e in cl}) == 1, 'floating-point registers', src,
+            expected='xmm j = convert([spAddr1 + 8j]), j = 0..7, one base', found=sorted((e[3], e[5]) for e in cl))
+    if xl and cl:
+        pa, pb = xl[0][2], cl[0][2]
+        ma_, mb_ = re.search(r'\[(.*)\]', pa), re.search(r'\[(.*)\]', pb)
+        ra = sorted(ma_.group(1).replace(' ', '').split('+')) if ma_ and pa.startswith('lea@') else None
+        rb = sorted(mb_.group(1).replace(' ', '').split('+')) if mb_ and pb.startswith('lea@') else None
+        R.check(ra is not None and rb is not None and 'rsi' in ra and 'rsi' in rb and ra != rb and len(ra) == 2 and len(rb) == 2, 'addresses', src,
+                expected='scratchpad base (rsi) + one register each, two different registers', found='%s / %s' % (pa, pb))
+    masked = {}
+    for off, mn, ops, raw in ins:
+        p = [x.strip() for x in ops.split(',')] if ops else []
+        if mn in ('andps', 'andpd', 'orps', 'orpd', 'pand', 'por') and len(p) == 2 and p[0].startswith('xmm'):
+            masked.setdefault(p[0], []).append((mn[:2] if mn[0] != 'p' else mn[1:3], p[1]))
+    want = {'xmm%d' % j for j in range(4, 8)}
+    shapes = {tuple(k for k, _ in v) for v in masked.values()}
+    R.check(set(masked) == want and len(shapes) == 1 and sorted(list(shapes)[0]) == ['an', 'or'], 'e-register masks', src,
+            expected='and-mask then or-mask on xmm4..xmm7 only', found={k: v for k, v in sorted(masked.items())})
+    srcs = {(k, r) for v in masked.values() for k, r in v}
+    R.check(len({r for k, r in srcs if k == 'an'}) == 1 and len({r for k, r in srcs if k == 'or'}) == 1, 'one and-mask and one or-mask register', src, expected='the same two mask registers for all four', found=sorted(srcs))
